@@ -264,6 +264,10 @@ pub enum DecompressBlockError {
     SequencesHeaderParseError(SequencesHeaderParseError),
     DecodeSequenceError(DecodeSequenceError),
     ExecuteSequencesError(ExecuteSequencesError),
+    LiteralsTooLarge {
+        regenerated_size: usize,
+        max: usize,
+    },
 }
 
 #[cfg(feature = "std")]
@@ -300,6 +304,14 @@ impl core::fmt::Display for DecompressBlockError {
             DecompressBlockError::SequencesHeaderParseError(e) => write!(f, "{e:?}"),
             DecompressBlockError::DecodeSequenceError(e) => write!(f, "{e:?}"),
             DecompressBlockError::ExecuteSequencesError(e) => write!(f, "{e:?}"),
+            DecompressBlockError::LiteralsTooLarge {
+                regenerated_size,
+                max,
+            } => {
+                write!(f,
+                    "Literals section would regenerate {regenerated_size} bytes. Maximum allowed block size is: {max}",
+                )
+            }
         }
     }
 }
@@ -684,6 +696,7 @@ pub enum ExecuteSequencesError {
     DecodebufferError(DecodeBufferError),
     NotEnoughBytesForSequence { wanted: usize, have: usize },
     ZeroOffset,
+    BlockTooLarge { size: usize, max: usize },
 }
 
 impl core::fmt::Display for ExecuteSequencesError {
@@ -700,6 +713,12 @@ impl core::fmt::Display for ExecuteSequencesError {
             }
             ExecuteSequencesError::ZeroOffset => {
                 write!(f, "Illegal offset: 0 found")
+            }
+            ExecuteSequencesError::BlockTooLarge { size, max } => {
+                write!(
+                    f,
+                    "Block would regenerate {size} bytes. Maximum allowed block size is: {max}"
+                )
             }
         }
     }
